@@ -215,6 +215,17 @@ func VerifC10EmbeddedTexts() {
 	if err != nil {
 		return
 	}
+	if vSymbolic() {
+		// which of the two marshalling calls was handed which document decides which text is which
+		m0, _ := vMarshalled(0).(*spec.Swagger)
+		m1, _ := vMarshalled(1).(*spec.Swagger)
+		orig, flat := ag.SpecDoc.OrigSpec(), ag.SpecDoc.Spec()
+		vAssert(orig != flat && ((m0 == orig && m1 == flat) || (m0 == flat && m1 == orig)),
+			"the two embedded texts are not made from the original and the flattened document")
+		if m0 == flat {
+			wantOrig, wantFlat = flatText, origText
+		}
+	}
 	gotOrig, ok1 := vEvalGoStringExpr("`" + string(app.SwaggerJSON) + "`")
 	gotFlat, ok2 := vEvalGoStringExpr("`" + string(app.FlatSwaggerJSON) + "`")
 	vAssert(ok1 && gotOrig == wantOrig, "the embedded original document is not a Go string expression for the marshalled document")
@@ -275,4 +286,99 @@ func VerifC10OrigSpecKept() {
 	list := pi.Post.Parameters[0].Schema.Properties["list"]
 	vAssert(list.Ref.String() == "" && len(list.Properties) == 1, "the document's original spec is no longer the input: the inline body was replaced by the flattened one")
 	vAssert(len(orig.Definitions) == 0, "the document's original spec gained definitions the input does not have")
+}
+
+func init() { vRegister("VerifC10ListsKept", VerifC10ListsKept) }
+
+// C10 (planning): the lists of an operation (consumes, produces, tags) and of the document
+// (consumes, produces), blank entries included, are in the flattened document handed to the
+// embedded-spec template exactly as the input had them: planning works on the document the server
+// embeds and must not rewrite the lists it reads.
+func VerifC10ListsKept() {
+	vocab := []string{"", "text/plain", "application/xml"}
+	pick := func(tag string) []string {
+		n := vChoice(tag+".len", 4)
+		out := make([]string, 0, n)
+		for i := 0; i < n; i++ {
+			out = append(out, vocab[vChoice(tag+"."+string(rune('0'+i)), 3)])
+		}
+		return out
+	}
+	clone := func(in []string) []string { return append([]string{}, in...) }
+	same := func(a, b []string) bool {
+		if len(a) != len(b) {
+			return false
+		}
+		for i := range a {
+			if a[i] != b[i] {
+				return false
+			}
+		}
+		return true
+	}
+	sw := vBaseSpec()
+	which := vChoice("list", 4) // one list at a time carries the drawn entries, the others a fixed one
+	drawn := pick("entries")
+	fixed := []string{"application/json"}
+	opConsumes, opProduces, opTags, topConsumes := clone(fixed), clone(fixed), []string{"t"}, clone(fixed)
+	switch which {
+	case 0:
+		opConsumes = clone(drawn)
+	case 1:
+		opProduces = clone(drawn)
+	case 2:
+		opTags = clone(drawn)
+	default:
+		topConsumes = clone(drawn)
+	}
+	sw.Consumes = clone(topConsumes)
+	op := &spec.Operation{}
+	op.ID = "putIt"
+	if which != 3 {
+		op.Consumes, op.Produces = clone(opConsumes), clone(opProduces)
+	}
+	op.Tags = clone(opTags)
+	body := spec.Parameter{}
+	body.Name, body.In, body.Schema = "body", "body", spec.StringProperty()
+	op.Parameters = []spec.Parameter{body}
+	op.Responses = vOKResponses()
+	vAddOp(sw, "PUT", "/x", op)
+	ag := vAppGenerator(sw)
+	if ag == nil {
+		return
+	}
+	app, err := ag.makeCodegenApp()
+	vCover("planned")
+	if err != nil {
+		return
+	}
+	var doc *spec.Swagger
+	if vSymbolic() {
+		d, ok := vMarshalled(1).(*spec.Swagger)
+		vAssert(ok && d != nil, "the flattened document is not marshalled from a swagger document")
+		if !ok || d == nil {
+			return
+		}
+		doc = d
+	} else {
+		doc = &spec.Swagger{}
+		raw, okRaw := vEvalGoStringExpr("`" + string(app.FlatSwaggerJSON) + "`")
+		if !okRaw {
+			panic("embedded text is not a Go string expression")
+		}
+		if uerr := json.Unmarshal([]byte(raw), doc); uerr != nil {
+			panic(uerr)
+		}
+	}
+	got := doc.Paths.Paths["/x"].Put
+	vAssert(got != nil, "the embedded document lost the operation")
+	if got == nil {
+		return
+	}
+	vAssert(same(doc.Consumes, topConsumes), "the embedded document's consumes list is not the input's")
+	if which != 3 {
+		vAssert(same(got.Consumes, opConsumes), "the embedded document's operation consumes list is not the input's")
+		vAssert(same(got.Produces, opProduces), "the embedded document's operation produces list is not the input's")
+	}
+	vAssert(same(got.Tags, opTags), "the embedded document's operation tags list is not the input's")
 }
